@@ -331,6 +331,16 @@ func (d *Decls) StructOf(name string, fields, fsorts []string, goT types.Type) s
 // useLemmaAll instantiates library lemma `name` for every instantiation of the template it
 // belongs to (lemma:<Template>:<name>) and returns the instantiated formulas.
 func (d *Decls) useLemmaAll(name string) []string {
+	out := d.lemmaTexts(name)
+	for _, text := range out {
+		d.decl("uselemma:"+text, "(assert "+text+") ; @derived")
+	}
+	return out
+}
+
+// lemmaTexts: the instances of a library lemma for the templates instantiated so far
+// (nothing is declared).
+func (d *Decls) lemmaTexts(name string) []string {
 	var out []string
 	seen := map[string]bool{}
 	for _, in := range append([]tmplInst(nil), d.insts...) {
@@ -345,7 +355,6 @@ func (d *Decls) useLemmaAll(name string) []string {
 			continue
 		}
 		seen[text] = true
-		d.decl("uselemma:"+text, "(assert "+text+") ; @derived")
 		out = append(out, text)
 	}
 	return out
